@@ -97,14 +97,113 @@ LeavesG2(nv) ==
   IN Cat([p \in 1..Len(pairs) |-> Some(JoinLeaves(V(pairs[p][1]), V(pairs[p][2])), IF p <= 2 THEN 12 ELSE 4)])
      \o Cat([i \in 1..nv |-> Some(CoreLeaves(V(i)), 5)])
 
+(* ---- G3: universal quantification.  x = V(1) is free, u = V(2) is the ----*)
+(* ---- universal variable; leaves mention u, x, both                    ----*)
+ForAllC(uv, ue, c) == [k |-> "forall", uv |-> uv, ue |-> ue, c |-> c]
+LeavesG3 ==
+  LET x == V(1)  u == V(2) IN
+  << CmpC("ge", At(u, "n"), LitI(1)),
+     CmpC("le", At(x, "n"), At(u, "n")),
+     CmpC("ge", At(x, "m"), LitI(1)),
+     CmpC("eq", At(u, "m"), LitI(0)),
+     CmpC("ne", At(x, "n"), At(u, "m")),
+     CmpC("lt", At(x, "n"), LitI(2)),
+     InC(At(x, "n"), At(u, "items"), "in_"),
+     CmpC("ne", At(u, "ref"), x),
+     Truth(At(u, "n")),
+     CmpC("eq", At(x, "s"), At(u, "s")),
+     PredC("p_lt", <<At(x, "n"), At(u, "m")>>, "fn"),
+     CmpC("gt", At(u, "n"), At(x, "m")) >>
+\* leaves over the free variable only, for conjunction with the quantified part
+OuterG3 == << CmpC("ge", At(V(1), "n"), LitI(1)), CmpC("eq", At(V(1), "m"), LitI(0)), Truth(At(V(1), "items")),
+              CmpC("ne", At(V(1), "s"), LitS(<<>>)) >>
+
+(* ---- G7: flatten.  x = V(1); the flattened expression is slot Flat(1) ----*)
+FlatSources(kind) == IF kind = "int" THEN << At(V(1), "items"), At(V(1), "t"), At(V(1), "n") >>
+                     ELSE << At(V(1), "refs"), At(V(1), "ref") >>
+LeavesG7(kind) ==
+  LET x == V(1)  f == Flat(1) IN
+  (IF kind = "int"
+   THEN << CmpC("eq", f, LitI(0)), CmpC("ge", f, LitI(1)), CmpC("eq", f, At(x, "n")), CmpC("lt", f, At(x, "m")),
+           InC(f, LitL(<<0, 2>>), "in_"), CmpC("ne", f, LitI(2)), CmpC("gt", At(x, "n"), f) >>
+   ELSE << CmpC("eq", At(f, "n"), LitI(0)), CmpC("ne", f, x), CmpC("lt", At(f, "n"), At(x, "m")),
+           CmpC("eq", f, At(x, "ref")), Truth(At(f, "n")), CmpC("ge", At(f, "m"), LitI(1)),
+           InC(f, At(x, "refs"), "contains"), CmpC("eq", At(f, "s"), At(x, "s")) >>)
+  \o Some(CoreLeaves(x), 4)
+
+(* ---- G7c: concatenate.  x = V(1) is aggregated, y = V(2) is tested     ----*)
+LeavesG7c ==
+  LET x == V(1)  y == V(2) IN
+  << InC(At(y, "n"), Concat(At(x, "items")), "in_"),
+     InC(y, Concat(At(x, "refs")), "in_"),
+     InC(At(y, "m"), Concat(At(x, "items")), "contains"),
+     InC(At(y, "ref"), Concat(At(x, "refs")), "contains"),
+     InC(At(y, "n"), Concat(At(x, "t")), "in_"),
+     InC(At(y, "n"), Concat(At(x, "n")), "in_"),
+     InC(y, Concat(At(x, "ref")), "in_") >>
+  \o Some(CoreLeaves(y), 4)
+
+(* ---- G6: sub-queries.  a sub-query over x or over (x, y) used as a     ----*)
+(* ---- condition, or as an operand standing for its selected variable    ----*)
+SubQ(desc, sel, c) == [k |-> "subq", desc |-> desc, sel |-> sel, c |-> c]
+SubE(i, c, quant)  == [k |-> "sub", i |-> i, c |-> c, quant |-> quant]
+InnerG6 ==   \* conditions that sub-queries are made of
+  LET x == V(1)  y == V(2) IN
+  << CmpC("ge", At(x, "n"), LitI(1)), CmpC("eq", At(x, "m"), LitI(0)), CmpC("lt", At(x, "n"), At(x, "m")),
+     CmpC("ne", At(x, "s"), LitS(<<>>)), InC(At(x, "n"), LitL(<<0, 2>>), "in_"), Truth(At(x, "items")) >>
+InnerG6y ==
+  LET y == V(2) IN
+  << CmpC("ge", At(y, "n"), LitI(1)), CmpC("eq", At(y, "m"), LitI(0)), CmpC("ne", At(y, "n"), At(y, "m")) >>
+LeavesG6 ==
+  LET x == V(1)  y == V(2) IN
+  \* sub-query as a condition over the enclosing query's own variable
+  [j \in 1..Len(InnerG6) |-> SubQ("entity", <<x>>, InnerG6[j])]
+  \* sub-query over the other variable / over both (set_of)
+  \o [j \in 1..Len(InnerG6y) |-> SubQ("entity", <<y>>, InnerG6y[j])]
+  \o << SubQ("set_of", <<x, y>>, CmpC("eq", At(x, "n"), At(y, "m"))),
+        SubQ("set_of", <<x, y>>, CmpC("lt", At(x, "n"), At(y, "n"))) >>
+  \* sub-query as a comparison operand: it stands for its selected variable, restricted to its solutions
+  \o [j \in 1..3 |-> CmpC("eq", At(SubE(2, InnerG6y[j], "an"), "n"), At(x, "m"))]
+  \o << CmpC("eq", SubE(2, InnerG6y[1], "an"), At(x, "ref")),
+        CmpC("ne", At(x, "ref"), SubE(2, InnerG6y[2], "an")),
+        InC(SubE(2, InnerG6y[1], "an"), At(x, "refs"), "contains") >>
+  \* plain conditions to combine with
+  \o << CmpC("eq", At(x, "n"), At(y, "m")), CmpC("ge", At(x, "n"), LitI(1)), CmpC("ne", At(y, "n"), LitI(0)) >>
+
 NotDepth(c) == IF c.k # "not" THEN 0 ELSE IF c.c.k # "not" THEN 1 ELSE 2
 
 RECURSIVE NLeaves(_)
 NLeaves(c) == CASE c.k \in {"and", "or"} -> NLeaves(c.l) + NLeaves(c.r)
-                [] c.k = "not" -> NLeaves(c.c)
+                [] c.k \in {"not", "forall"} -> NLeaves(c.c)
                 [] OTHER -> 1
 RECURSIVE HasNot(_)
 HasNot(c) == CASE c.k \in {"and", "or"} -> HasNot(c.l) \/ HasNot(c.r)
                [] c.k = "not" -> TRUE
+               [] c.k = "forall" -> HasNot(c.c)
                [] OTHER -> FALSE
+\* does a condition contain a sub-query (as a condition or as an operand)?  not_ over a quantifier is rejected by the API
+RECURSIVE ExprHasSub(_)
+ExprHasSub(e) == CASE e.k = "sub" -> TRUE
+                   [] e.k \in {"attr", "idx", "mcall"} -> ExprHasSub(e.e)
+                   [] OTHER -> FALSE
+RECURSIVE HasSub(_)
+HasSub(c) == CASE c.k = "subq" -> TRUE
+               [] c.k = "cmp" -> ExprHasSub(c.l) \/ ExprHasSub(c.r)
+               [] c.k = "in" -> ExprHasSub(c.item) \/ ExprHasSub(c.cont)
+               [] c.k \in {"and", "or"} -> HasSub(c.l) \/ HasSub(c.r)
+               [] c.k \in {"not", "forall"} -> HasSub(c.c)
+               [] OTHER -> FALSE
+\* sub-query used as an operand somewhere below?  (under a disjunction the reach of the operand's restriction is not
+\* fixed by C15's wording, so the generator combines such leaves conjunctively only)
+RECURSIVE HasSubOperand(_)
+HasSubOperand(c) == CASE c.k = "cmp" -> ExprHasSub(c.l) \/ ExprHasSub(c.r)
+                      [] c.k = "in" -> ExprHasSub(c.item) \/ ExprHasSub(c.cont)
+                      [] c.k \in {"and", "or"} -> HasSubOperand(c.l) \/ HasSubOperand(c.r)
+                      [] c.k \in {"not", "forall"} -> HasSubOperand(c.c)
+                      [] OTHER -> FALSE
+RECURSIVE HasForAll(_)
+HasForAll(c) == CASE c.k \in {"and", "or"} -> HasForAll(c.l) \/ HasForAll(c.r)
+                  [] c.k = "not" -> HasForAll(c.c)
+                  [] c.k = "forall" -> TRUE
+                  [] OTHER -> FALSE
 =========================================================================
